@@ -297,7 +297,11 @@ def get_cauchy_point(
     delta_t_min = 0 if delta_t_min < 0 else delta_t_min
     t_old += delta_t_min
 
-    x_cp[t >= t_cur] = (x + t_old * d)[t >= t_cur]
+    # Move the variables whose breakpoint has not been reached. d is zero for the
+    # variables already fixed on a bound (they must stay there, including the ones
+    # fixed at a breakpoint tied with the current one: a test on t would reset them).
+    is_moving = d != 0
+    x_cp[is_moving] = (x + t_old * d)[is_moving]
 
     c += delta_t_min * p
 
